@@ -361,4 +361,52 @@ pub proof fn lemma_one_damaged_entry_replay(s: Seq<u8>, p: int, entries: Seq<Seq
     lemma_replay_log_is_fold(blocks_of(s), q, within, buf, v);
 }
 
+/// k entries delivered and then nothing more: that is all the reading rule ever delivers
+pub proof fn lemma_read_all_of_prefix(blocks: Seq<Seq<u8>>, q: RdPos, within: bool, buf: Seq<u8>, k: nat)
+    requires
+        pos_ok(blocks, q), blocks_ok(blocks),
+        run_k(blocks, q, within, buf, k) matches Some((got, last, w, b)) && ends_soon(blocks, last, w, b),
+    ensures
+        read_all(blocks, q, within, buf) == run_k(blocks, q, within, buf, k)->Some_0.0,
+    decreases k,
+{
+    lemma_rec_step_progress(blocks, q, within, buf);
+    if k == 0 {
+        match rec_step(blocks, q, within, buf) {
+            RStep::Corrupt { next } => {
+                assert(rec_step(blocks, next, false, Seq::empty()) is End);
+                assert(read_all(blocks, next, false, Seq::empty()) =~= Seq::<Seq<u8>>::empty());
+            },
+            _ => {},
+        }
+        assert(read_all(blocks, q, within, buf) =~= Seq::<Seq<u8>>::empty());
+    } else {
+        let next = rec_step(blocks, q, within, buf)->Record_next;
+        let bytes = rec_step(blocks, q, within, buf)->Record_bytes;
+        lemma_read_all_of_prefix(blocks, next, false, bytes, (k - 1) as nat);
+    }
+}
+
+/// C12 at the logical level: with the tail of the WAL cut at any byte, recovery computes the replay of a PREFIX of the entries written
+pub proof fn lemma_torn_tail_replay(s: Seq<u8>, p: int, entries: Seq<Seq<u8>>, cut: int, q: RdPos, within: bool, buf: Seq<u8>, v: LogView)
+    requires
+        s.len() % 32768 == 0,
+        pos_at(blocks_of(s), q, p),
+        0 <= cut <= enc_all(p, entries).len(),
+        p + enc_all(p, entries).len() <= s.len(),
+        s.subrange(p, p + enc_all(p, entries).len()) == torn(enc_all(p, entries), cut),
+        zero_from(s, p + cut),
+        crc_sound(),
+    ensures
+        exists|k: int| 0 <= k <= entries.len() && replay_log(blocks_of(s), q, within, buf, v) == #[trigger] replay_bytes(entries.take(k), v),
+{
+    let blocks = blocks_of(s);
+    lemma_blocks_of(s);
+    lemma_torn_tail(s, p, entries, cut, q, within, buf);
+    let k = choose|k: nat| #[trigger] delivers_prefix(blocks, q, within, buf, entries, k);
+    lemma_read_all_of_prefix(blocks, q, within, buf, k);
+    lemma_replay_log_is_fold(blocks, q, within, buf, v);
+    assert(replay_log(blocks, q, within, buf, v) == replay_bytes(entries.take(k as int), v));
+}
+
 } // verus!
